@@ -94,7 +94,7 @@ Definition query_hashes (seed : N) (ls : list (list N)) (qs : list (option N)) :
 
 (* tamperings: (kind, i, impl verdict).  kind 0: query hash i replaced by another value's leaf hash;
    1: root replaced; 2: sibling hash i replaced; 3: idx i replaced by the idx of leaf position j (encoded in i as
-   i = qi * 65536 + j); 4: the claim (idx of query i, another hash) put in FRONT of the honest claims *)
+   i = qi * 65536 + j); 4: the claim (idx of query i, another hash) put in FRONT of the honest claims; 5: proof.Size := i; 6: ancestor claim shadowing a false leaf claim *)
 Definition other_hash (seed k : N) : hsh := hleaf (other_val seed (1000 + k)).
 Definition replace_nth {A} (i : nat) (x : A) (l : list A) : list A := set_nth i x l.
 
@@ -123,12 +123,22 @@ Definition check_proof (c : proof_case) : N :=
          | Some idx => verify_proof hbranch bytes_eqb qh n (replace_nth (N.to_nat (i / 65536)) idx iidxs) isibs root
          | None => false
          end
-    else verify_proof hbranch bytes_eqb (other_hash seed i :: qh) n (nth (N.to_nat i) iidxs 0 :: iidxs) isibs root in
+    else if k =? 4 then verify_proof hbranch bytes_eqb (other_hash seed i :: qh) n (nth (N.to_nat i) iidxs 0 :: iidxs) isibs root
+    else if k =? 6 then (* claim (ancestor [i mod 8] levels above query [i / 8], honest hash) in front; the leaf claimed with another hash *)
+      let qi := i / 8 in
+      verify_proof hbranch bytes_eqb (nth (N.to_nat qi) qh [] :: replace_nth (N.to_nat qi) (other_hash seed qi) qh) n
+                   (N.shiftr (nth (N.to_nat qi) iidxs 0) (i mod 8) :: iidxs) isibs root
+    else (* 5: proof.Size replaced by i (unauthenticated field) *) verify_proof hbranch bytes_eqb qh i iidxs isibs root in
   let agree_t := forallb (fun t => Bool.eqb (snd t) (tamper_model t)) tampers in
   let has_present := existsb (fun q => match q with Some _ => true | None => false end) qs in
   let present := flat_map (fun q => match q with Some p => [p] | None => [] end) qs in
   let nodup := Nat.eqb (length (nodup N.eq_dec present)) (length present) in
-  let spec := negb ierr && (if has_present && nodup then iver else true) && forallb (fun t => negb (snd t)) tampers in
+  (* a proof with another Size may still be accepted (the field is not authenticated, see C11_proof_position_wrong_size_refuted);
+     what must remain true is the DATA claim: every claimed hash at a non-zero index is the hash of some leaf of the list *)
+  let leaf_hashes := map hleaf ls in
+  let data_ok := forallb (fun p => (fst p =? 0) || existsb (bytes_eqb (snd p)) leaf_hashes) (combine iidxs qh) in
+  let spec := negb ierr && (if has_present && nodup then iver else true) &&
+              forallb (fun t => let '(k, _, v) := t in if k =? 5 then negb v || data_ok else negb v) tampers in
   code (agree_gen && Bool.eqb iver mver && agree_t) spec.
 
 (* ---- update through a proof ----
@@ -218,7 +228,7 @@ Definition seq_case : Type :=
   list (list N * bool * list N * list hsh * bool) * list (N * option (list hsh) * option hsh * bool).
 Definition apply_op (seed : N) (ls : list (list N)) (o : N * N * N) : list (list N) :=
   let '(k, a, b) := o in
-  if k =? 0 then ls ++ [leaf_val seed a] else set_nth (N.to_nat a) (leaf_val seed b) ls.
+  if k =? 0 then ls ++ [leaf_val seed a] else if k =? 2 then ls (* re-open from the store *) else set_nth (N.to_nat a) (leaf_val seed b) ls.
 Definition check_seq (c : seq_case) : N :=
   let '(seed, ids, ops, ist, reload, proofs, rws) := c in
   let ls := fold_left (apply_op seed) ops (map (leaf_val seed) ids) in
@@ -228,7 +238,7 @@ Definition check_seq (c : seq_case) : N :=
   let spec_st : st := (root, path, n) in
   let height := get_height n in
   let present (id : N) := existsb (bytes_eqb (leaf_val seed id)) ls in
-  let run_proof (p : list N * bool * list N * list hsh * bool) : bool * bool :=
+  let run_proof (p : list N * bool * list N * list hsh * bool) : bool * bool * bool :=
     let '(qids, ierr, iidxs, isibs, iver) := p in
     let qh := map (fun id => hleaf (leaf_val seed id)) qids in
     let msibs := sibling_hashes (node_at ls) n iidxs in
@@ -245,7 +255,14 @@ Definition check_seq (c : seq_case) : N :=
     let spec := if all_present && negb (Nat.eqb (length qids) 0)
                 then negb ierr && Nat.eqb (length iidxs) (length qids) && forallb idx_ok (combine qids iidxs) && iver
                 else true in
-    (agree, spec) in
+    (* the known defect class: a queried value that IS in the list was resolved to a leaf position that holds another
+       value (the hash->location index is single-valued and Update never cleans it) *)
+    let stale_hit (qi : N * N) :=
+      let '(id, idx) := qi in
+      present id && (2 ^ height <=? idx) && (idx <? 2 ^ height + n) &&
+      negb (bytes_eqb (nth (N.to_nat (idx - 2 ^ height)) ls []) (leaf_val seed id)) in
+    let stale := negb ierr && Nat.eqb (length iidxs) (length qids) && existsb stale_hit (combine qids iidxs) in
+    (agree, spec, stale) in
   let run_rw (w : N * option (list hsh) * option hsh * bool) : bool * bool :=
     let '(idx, iw, iroot, iver) := w in
     let path_part := subtree_roots hempty hleaf hbranch (firstn (N.to_nat idx) ls) in
@@ -264,5 +281,14 @@ Definition check_seq (c : seq_case) : N :=
     (agree_w && agree_r, spec) in
   let ps := map run_proof proofs in
   let ws := map run_rw rws in
-  code (st_eqb ist spec_st && forallb fst ps && forallb fst ws)
-       (st_eqb ist spec_st && ((n =? 0) || ost_eqb reload (Some spec_st)) && forallb snd ps && forallb snd ws).
+  let st_ok := st_eqb ist spec_st in
+  let rl_ok := (n =? 0) || ost_eqb reload (Some spec_st) in
+  let pf_ok := forallb (fun x => snd (fst x)) ps in
+  let rw_ok := forallb snd ws in
+  (* every failing proof is a hit of the stale hash->location index *)
+  let pf_stale := forallb (fun x => snd (fst x) || snd x) ps in
+  (* 0 ok, 1 model only; a violated oracle adds 2 and the detail 4*(1 state + 2 reload + 4 proofs + 8 right witnesses
+     + 16 the failing proofs are all stale-index hits) *)
+  code (st_ok && forallb (fun x => fst (fst x)) ps && forallb fst ws) (st_ok && rl_ok && pf_ok && rw_ok) +
+  4 * ((if st_ok then 0 else 1) + (if rl_ok then 0 else 2) + (if pf_ok then 0 else 4) + (if rw_ok then 0 else 8) +
+       (if negb pf_ok && pf_stale then 16 else 0)).
